@@ -28,7 +28,8 @@ class C05(Prop):
         rows.append(c[2] + hz * w + c[3])
         text = gens.place(rows, x, y)
         exp = {'x': x * 40 + 20, 'y': y * 80 + 40, 'w': (w + 1) * 40, 'h': (h + 1) * 80, 'rx': rx or 0, 'dashed': anyd}
-        return Item('box', {'main': Run(text, '', 'settings')}, {'text': text, 'expect': exp, 'box': [w, h]})
+        sc = rng.choice(['8', '8', '8', '1', '3', '5/2', '1/2', '10'])          # position, size and corner radius at other scales too
+        return Item('box', {'main': Run(text, '' if sc == '8' else 'scale=%s' % sc, 'settings')}, {'text': text, 'expect': exp, 'box': [w, h], 'scale': sc})
     def make(self, gen, text):
         return Item(gen, {'main': Run(text, '', 'settings')}, {'text': text}, lambda t: self.make(gen, t))
     def items(self, rng, tier):
@@ -67,7 +68,8 @@ class C05(Prop):
         out = []
         rects = [e for e in root.walk() if e.tag == 'rect' and e.get('class') != 'backdrop' and 'filled' not in (e.get('class') or '').split()]
         for e in rects:
-            x, y, w, h = [F(e.get(k)) * 5 for k in ('x', 'y', 'width', 'height')]
+            unit = F(40) / F(it.meta.get('scale', '8'))          # ticks per user unit
+            x, y, w, h = [F(e.get(k)) * unit for k in ('x', 'y', 'width', 'height')]
             # edges lie on mid-lines of cells: x = 40c+20, y = 80r+40
             c0 = (x - 20) / 40; c1 = (x + w - 20) / 40; r0 = (y - 40) / 80; r1 = (y + h - 40) / 80
             if any(v.denominator != 1 for v in (c0, c1, r0, r1)):
@@ -87,7 +89,8 @@ class C05(Prop):
                 out.append('a %dx%d box is emitted as %d rect elements and %d non-text elements in all (%s)' % (it.meta['box'][0], it.meta['box'][1], len(rects), len(els), [e.tag for e in els][:6]))
             else:
                 e = rects[0]
-                got = {'x': F(e.get('x')) * 5, 'y': F(e.get('y')) * 5, 'w': F(e.get('width')) * 5, 'h': F(e.get('height')) * 5, 'rx': F(e.get('rx') or 0) * 5,
+                unit = F(40) / F(it.meta.get('scale', '8'))
+                got = {'x': F(e.get('x')) * unit, 'y': F(e.get('y')) * unit, 'w': F(e.get('width')) * unit, 'h': F(e.get('height')) * unit, 'rx': F(e.get('rx') or 0) * unit,
                        'dashed': 'broken' in (e.get('class') or '').split()}
                 for k in exp:
                     if got[k] != exp[k]: out.append('box rect %s: expected %s, got %s' % (k, exp[k], got[k]))
